@@ -192,12 +192,26 @@ def _wiring(ctx):
                 sent = any(x in res.exec_blocks for x in s)
                 want = v["name"] in ("UnsupportedCmdType", "Disabled")
                 ctx.check(sent == want, "C20.D4", "on-%s" % v["name"], site(h, c[0][0]), ok="forwarded" if sent else "answered with an error, not forwarded", bad="after %s the command is %s" % (v["name"], "forwarded" if sent else "not forwarded"))
-    # observation: the UMFORWARD entry re-enters the same data path (a redirected command is transformed again by the receiving proxy)
+    # applied once: the forwarding proxy transforms the command *before* routing; when routing redirects it to a peer
+    # (active redirection, with or without the UMFORWARD wrapper) the receiving proxy runs the same data path and
+    # transforms it again.  Necessary condition for "applied once": the compressor is either applied only when the
+    # command stays local (guarded by a local-ownership test) or no remote forwarding is reachable after it.
     cg = CallGraph(F, bins=False)
-    uf = [p for p in cg.bodies if p.endswith("ForwardHandler::handle_umforward") or p.endswith("ForwardHandler::handle_umforward::{closure#0}")]
     tgt = "proxy::executor::ForwardHandler::handle_single_key_data_cmd"
-    for p in uf:
-        pth = cg.path(p, tgt)
-        if pth:
-            ctx.info("C20.D4", "umforward-reenters-compressor", "UMFORWARD entry reaches the compressor again via %s: under active redirection a command already transformed by the forwarding proxy is transformed a second time (reported by two independent reviewers on the pinned tree; not confirmed by execution here)" % " -> ".join(x.rsplit("::", 1)[-1] for x in pth))
-            break
+    remote = [p for p in cg.bodies if p.endswith("RemoteCluster::send_remote_directly") or p.endswith("send_cmd_ctx_to_remote_directly")]
+    if h is not None and c and s:
+        sender_fns = {callee_of(h.blocks[x].term) for x in s}
+        reach = set()
+        for fn in sender_fns:
+            reach |= cg.reachable([fn]) if fn in cg.bodies else set()
+        forwards = sorted(r for r in remote if r in reach)
+        du = DefUse(h)
+        guarded = False
+        dom = cfg.dominators(h)
+        for gb, gt in h.calls():
+            nm = (callee_of(gt) or "").rsplit("::", 1)[-1].lower()
+            if gb in dom.get(c[0][0], ()) and gb != c[0][0] and any(k in nm for k in ("is_local", "local", "owns", "get_redirection_times", "is_forwarded")):
+                guarded = True
+        ctx.check(not forwards or guarded, "C20.D4", "compressed-before-redirect:handle_single_key_data_cmd", site(h, c[0][0]),
+                  ok="the compressor is not applied to commands that are redirected to a peer",
+                  bad="the command is compressed before routing and routing can forward it to a peer proxy (%s) whose own data path compresses it again: a value written through a redirecting proxy is stored double-compressed and read back as zstd bytes" % ", ".join(x.rsplit("::", 1)[-1] for x in forwards))
